@@ -593,6 +593,15 @@ func body(s *simrt.Sim, tier string) {
 		PollRetriesInterval:          time.Duration(1+tp.Draw(4)) * time.Second,
 		WorkqueueMetricsEmitInterval: 20 * time.Second,
 	}
+	// worker counts left to the manager's defaults in some runs (out of band)
+	switch (s.Tape.Variant / 3) % 4 {
+	case 1:
+		w.cfg.NumRetryWorkers = 0
+		s.Probe("retry_workers_defaulted")
+	case 2:
+		w.cfg.NumIncomingWorkers, w.cfg.NumRetryWorkers = 0, 0
+		s.Probe("all_workers_defaulted")
+	}
 	w.failPm = []int{0, 300, 600, 850}[tp.Draw(4)]
 	w.crashExecPm = []int{0, 0, 40, 150}[tp.Draw(4)]
 	w.crashStorePm = []int{0, 0, 10, 40}[tp.Draw(4)]
@@ -716,6 +725,9 @@ func body(s *simrt.Sim, tier string) {
 	s.Logf("faults stop")
 	t0 := s.Now()
 	workers := w.cfg.NumIncomingWorkers + w.cfg.NumRetryWorkers
+	if w.cfg.NumIncomingWorkers == 0 || w.cfg.NumRetryWorkers == 0 {
+		workers += 16 // defaulted: any plausible default; more workers only loosen the bound
+	}
 	limit := w.cfg.MaxTaskThroughput * time.Duration(workers)
 	const execFault = 7 * time.Second // longest execution started before faults stopped
 	per := w.cfg.RetryInterval + w.cfg.PollRetriesInterval + 2*time.Second + limit + execFault
